@@ -282,6 +282,7 @@ func main() {
 	var spawns []spawn
 	var hmShapes [][2]string
 	consts := map[string]string{}
+	termHeightVar := map[string]string{}
 	for _, path := range files {
 		base := filepath.Base(path)
 		if strings.HasSuffix(base, "_test.go") {
@@ -345,8 +346,18 @@ func main() {
 						}
 					}
 					sels = append(sels, s)
+				case *ast.AssignStmt:
+					// width, height, err = cw.GetTermSize(): remember what the height is called in this function
+					if len(x.Rhs) == 1 && len(x.Lhs) >= 2 {
+						if call, ok := x.Rhs[0].(*ast.CallExpr); ok {
+							if se, ok := call.Fun.(*ast.SelectorExpr); ok && se.Sel.Name == "GetTermSize" {
+								termHeightVar[recv+"."+name] = text(x.Lhs[1])
+							}
+						}
+					}
 				case *ast.IncDecStmt:
-					if recv == "pState" && name == "render" && text(x.X) == "height" && x.Tok == token.DEC {
+					// the function that asks the terminal for its size keeps one row fewer (wherever a refactor has put it)
+					if hv, ok := termHeightVar[recv+"."+name]; ok && text(x.X) == hv && x.Tok == token.DEC {
 						consts["heightAdjust"] = "-1"
 					}
 				case *ast.KeyValueExpr:
